@@ -53,6 +53,8 @@ func Run(opts *Options) (int, error) {
 	}
 
 	defer util.RunAtExitFuncs()
+	allowTemporaryFiles()
+	defer removeTemporaryFiles()
 
 	// Output channel given
 	if opts.Output != nil {
